@@ -802,7 +802,16 @@ where
             match ch.try_recv() {
                 Ok(Hit(hash, entry, timestamp)) => {
                     freq.increment(hash);
-                    entry.set_last_accessed(timestamp);
+                    // Never move last_accessed backwards. The entry may have been
+                    // updated or read again at a later clock reading than the one
+                    // recorded in this queued read.
+                    if entry
+                        .last_accessed()
+                        .map(|la| la < timestamp)
+                        .unwrap_or(true)
+                    {
+                        entry.set_last_accessed(timestamp);
+                    }
                     if entry.is_admitted() {
                         deqs.move_to_back_ao(&entry);
                     }
